@@ -114,6 +114,46 @@ def main():
 
             shutil.rmtree(d, ignore_errors=True)
             dds.set_store("memory")
+    # the same through the public configuration call: set_store('dbfs', ...) again on the same directories and the same
+    # dbutils object with another commit type; after a keep under type t the post-condition of t holds
+    import types as _types
+
+    for hist in (("links_only", "full", "none"), ("full", "none", "links_only"), ("none", "full", "full"), ("full", "links_only", "full")):
+        for wrap in (None, 3):
+            evals += 1
+            db = FakeDbutils()
+            mod = _types.ModuleType("dbfs_cfg_pipe")
+            d_ = __import__("tempfile").mkdtemp(prefix="dds_b_dbfs_")
+            try:
+                name = "dbfs_cfg_%s_%s" % ("_".join(hist), wrap)
+                with open(__import__("os").path.join(d_, name + ".py"), "w") as f_:
+                    f_.write("import dds\nN = 0\ndef val():\n    return 'value-%d' % N\n")
+                sys.path.insert(0, d_)
+                pm = __import__("importlib").import_module(name)
+                dds.accept_module(pm)
+                for step, ct_name in enumerate(hist):
+                    pm.N = step
+                    dds.set_store("dbfs", internal_dir="dbfs:/cint", data_dir="dbfs:/cdata", dbutils=db, commit_type=ct_name, cache_objects=wrap)
+                    before = dict(db.fs.files)
+                    path = "/cfg/out%d" % step
+                    r = dds.keep(path, pm.val)
+                    tag = "set_store('dbfs') history %s (cache_objects=%s), step %d (%s)" % (list(hist), wrap, step, ct_name)
+                    if r != "value-%d" % step:
+                        note(None, "[%s] keep returned %r" % (tag, r))
+                    new_data = {p_: v_ for p_, v_ in db.fs.files.items() if p_.startswith("dbfs:/cdata/") and before.get(p_) != v_}
+                    rec = [p_ for p_ in new_data if "_dds_meta" in p_]
+                    obj = [p_ for p_ in new_data if "_dds_meta" not in p_]
+                    if ct_name == "none" and new_data:
+                        note(None, "[%s] commit type 'none' wrote %s under the data directory" % (tag, sorted(new_data)))
+                    if ct_name == "links_only" and (obj or len(rec) != 1):
+                        note(None, "[%s] commit type 'links_only' wrote objects %s / records %s" % (tag, obj, rec))
+                    if ct_name == "full" and (db.fs.files.get("dbfs:/cdata" + path) != ("value-%d" % step).encode("utf-8") or len(rec) != 1):
+                        note(None, "[%s] commit type 'full' left %r at the path (records %s), not a copy of the kept result" % (tag, db.fs.files.get("dbfs:/cdata" + path), rec))
+            finally:
+                if d_ in sys.path:
+                    sys.path.remove(d_)
+                __import__("shutil").rmtree(d_, ignore_errors=True)
+                dds.set_store("memory")
     # histories of commit types over the same directories (a store re-configured between runs): after a commit under
     # type t the postcondition of t holds, whatever the earlier types were
     import itertools
@@ -152,7 +192,7 @@ def main():
                     note(None, "[%s] after the 'full' commit of /h/p -> %s the data directory holds %r at the path, not a copy of the result" % (tag, k, data.get("dbfs:/data/h/p")))
                 if ct == CommitType.LINK_ONLY and data.get("dbfs:/data/h/p") != before.get("dbfs:/data/h/p"):
                     note(None, "[%s] a 'links only' commit wrote the object at the path" % tag)
-    print(json.dumps({"scope": "81 histories of 3 commit types over the same directories x {fresh store object per step, one long-lived store object per commit type} x 3 key sequences + 3 commit types x 4 value types x {store, commit, re-commit, leading-dot path, end-to-end keep/load with an edit and a revert} on a fake dbutils.fs",
+    print(json.dumps({"scope": "8 histories of set_store('dbfs', commit_type=...) on one location + 81 histories of 3 commit types over the same directories x {fresh store object per step, one long-lived store object per commit type} x 3 key sequences + 3 commit types x 4 value types x {store, commit, re-commit, leading-dot path, end-to-end keep/load with an edit and a revert} on a fake dbutils.fs",
                       "evaluations": evals, "distinct_nontrivial": evals, "rule": "one case per (commit type, operation)", "samples": [{"commit_type": "links_only", "op": "sync_paths then fetch_paths"}],
                       "violations": violations, "known_hits": ["bounded:%s (%d cases, e.g. %s)" % (c, len(w), w[0][:160]) for c, w in sorted(known.items())]}))
 
